@@ -137,7 +137,7 @@ PLANS.update({
     },
     "C01": {
         "level": "exploration",
-        "rule": "cluster runs with up to f stake Byzantine (classes s5 equivocator / s6 withholding leader / s7 stale-QC proposer / s8 replay storm): one omniscient adversary holding the Byzantine keys votes for every block it sees (double votes), broadcasts timeouts with the genesis QC for every round any node timed out in, assembles QCs/TCs from the honest votes/timeouts it can see, proposes two different blocks per led round to disjoint groups with late cross delivery, withholds proposals, proposes on the stalest QC its hand-picked TC allows (or an older one), replays tapped frames, while honest nodes are periodically split into two groups with slow cross traffic; plus honest-only crash / asynchrony / partition runs; oracle: all blocks committed by all honest nodes lie on one chain; non-trivial = a run with Byzantine actions other than plain proposals, at least one view change and >= 2 commits; distinct = distinct Core-event fingerprints",
+        "rule": "cluster runs with up to f stake Byzantine (classes s5 equivocator / s6 withholding leader / s7 stale-QC proposer / s8 replay storm): one omniscient adversary holding the Byzantine keys votes for every block it sees (double votes), broadcasts timeouts with the genesis QC for every round any node timed out in, assembles QCs/TCs from the honest votes/timeouts it can see, proposes two different blocks per led round to disjoint groups with late cross delivery, withholds proposals, proposes on the stalest QC its hand-picked TC allows (or an older one), makes 'wild' proposals for the round most honest nodes are in (an old QC justified by a replayed old TC or by nothing), replays tapped frames, while honest nodes are periodically split into two groups with slow cross traffic; plus honest-only crash / asynchrony / partition runs; oracle: all blocks committed by all honest nodes lie on one chain; non-trivial = a run with Byzantine actions other than plain proposals, at least one view change and >= 2 commits; distinct = distinct Core-event fingerprints",
         "assumptions": ["Byzantine stake <= f", "the local monitors (C03 C05 C09 C10 C19) run on every honest node of every run and are the early warning for breaks that only long, precisely timed attacks turn into forks (DESIGN.md Appendix D)"],
         "quick": [J("byz", c, 40, per_process=3) for c in ("s5", "s6", "s7", "s8")] + cluster_mix(24),
         "thorough": [J("byz", c, 2500, per_process=10) for c in ("s5", "s6", "s7", "s8")] + cluster_mix(1000),
@@ -205,7 +205,7 @@ def nontrivial(pid, res, sits):
 
 # Coverage floors: (counter or situation, minimum) that the unchanged tree meets deterministically.
 FLOORS = {
-    "C01": {"quick": {"C01.distinct_committed_blocks": 10000, "C01.adv.equivocation": 500, "C01.adv.withholding_proposal": 300, "C01.fork_points": 500, "sit:C01:byzantine_actions_view_change_and_commits": 50}},
+    "C01": {"quick": {"C01.distinct_committed_blocks": 10000, "C01.adv.equivocation": 500, "C01.adv.withholding_proposal": 300, "C01.adv.wild_proposal_old_qc_replayed_old_tc": 300, "C01.fork_points": 500, "sit:C01:byzantine_actions_view_change_and_commits": 50}},
     "C13": {"quick": {"C13.transactions_traced": 1500, "C13.committed_batches_read_back": 3000, "sit:C13:on_demand_batch_fetch": 20, "sit:C13:fault_free_end_to_end": 20}},
     "C15": {"quick": {"C15.hostile_frames": 3000, "C15.probe_vote": 300, "C15.probe_sync": 300, "C15.probe_batch_request": 300, "C15.probe_batching": 300}},
     "C11": {"quick": {"C11.transactions_conserved_in_order": 10000, "C11.sealed_by_size": 1000, "C11.sealed_by_timer": 500, "C11.received_batches_checked": 100}},
